@@ -387,6 +387,8 @@ def explore(F, model, spec, max_pairs=400):
             if kind == 'poll' and not model.sub_key('poll'):
                 P.mismatches.append((key, cname, 'scanner has no poll method'))
                 continue
+            if kind == 'reset' and not model.sub_key('reset'):
+                continue      # no per-element reset method: the outer reset is interpreted as a whole by C17
             c0 = dict(cons)
             c0.update(class_cons(cname, kind, rng))
             I, outs = run_step(F, model, kind, cs, c0)
